@@ -37,10 +37,10 @@ CHECKS = {
  "C10": ("exploration", "complete enumeration of the (domain exponent 1..=64 x count x transcript state) grid against a big-integer model",
          "range, strict monotonicity, count bound, determinism, model equality; index -> point map on all single-bit indices and complements; recorded proofs' query logs",
          "Poseidon trusted"),
- "C11": ("exploration", "deviation-bounded sweep (0, 1, 2 deviations incl. consistent re-declarations modulo p) around valid configurations against an integer predicate",
+ "C11": ("exploration", "deviation-bounded sweep (0, 1, 2 deviations incl. consistent re-declarations modulo p) around valid configurations against an integer predicate; every deviation also as a history of length two (accepted base, then the case, same thread)",
          "StarkConfig::validate accepts exactly what the integer predicate accepts on every explored configuration",
          "surplus trailing vector elements are unjudged (the property does not speak about them)"),
- "C12": ("exploration", "complete enumeration of the finite space (all 18721 (t,c) with t+c<=192) against big-integer order checks",
+ "C12": ("exploration", "complete enumeration of the finite space (all 18721 (t,c) with t+c<=192) against big-integer order checks, on the std and the no_std build of the crates",
          "every pair: orders exactly 2^(t+c) and 2^t, trace generator = eval generator^(2^c), sizes are the integer powers",
          "num-bigint modpow trusted"),
  "C13": ("exploration", "exhaustive single-deviation sweep over public inputs with pairwise-distinctness of digests over the whole explored set",
